@@ -269,6 +269,12 @@ func NewMultiCIDRRangeAllocator(
 				logger.V(4).Info("Node has no CIDR, ignoring", "node", klog.KObj(&node))
 				continue
 			}
+			if !node.DeletionTimestamp.IsZero() {
+				// The CIDRs of a node that is being deleted are released as soon as the deletion
+				// is seen and may belong to another node by now, do not record them again.
+				logger.V(4).Info("Node is being deleted, ignoring", "node", klog.KObj(&node))
+				continue
+			}
 			logger.Info("Node has CIDR, occupying it in CIDR map", "node", klog.KObj(&node), "podCIDRs", node.Spec.PodCIDRs)
 			if err := ra.occupyCIDRs(logger, &node); err != nil {
 				// This will happen if:
